@@ -25,7 +25,8 @@ cursor sees — through `siterator`, which appends the provenance fields and **s
 rejects iff `Cfg.applyFilter`**, which the extractor regenerates from the source: since the repair f08ebbf of finding F09
 `siterator.Get` calls `fltF`; the cursor moves over everything it saw, accepted or not), `wsave`
 (`saveState`), `wtimeout` (the wait timed out or the context ended), `wdone` (`workerDone`: clear `wCharged`,
-re-arm if `Pos < LastKnwnPos`), `create`, `delete`, `shutdown`/`halt`/`restart`.
+re-arm if `Pos < LastKnwnPos`), `create`, `delete`, `shutdown`/`halt`/`restart`. The registry file `pipes.dat` is the flag
+`reg` (rewritten by create / delete / shutdown as the regenerated facts say; a restart takes the pipe's existence from it).
 -/
 namespace Logrange.PipeLts
 
@@ -93,6 +94,12 @@ structure Cfg where
   applyFilter : Bool
   /-- `workerDone` calls `startWorker` -/
   rearm : Bool
+  /-- `CreatePipe` / `DeletePipe` / `Shutdown` call `savePipes` (rewrite the registry file `pipes.dat`) -/
+  saveOnCreate : Bool
+  saveOnDelete : Bool
+  saveOnShutdown : Bool
+  /-- `startWorker` also tests that the pipe itself is alive (`pp.clsCtx` / `pp.deleted`), not only the service -/
+  startChecksPipe : Bool
 deriving DecidableEq, Repr
 
 structure State where
@@ -111,6 +118,8 @@ structure State where
   flt : Ev → Bool
   closed : Bool
   down : Bool
+  /-- the registry file `pipes.dat` lists the pipe -/
+  reg : Bool
 
 def upd {α : Type} (f : Nat → α) (s : Nat) (v : α) : Nat → α := fun s' => if s' = s then v else f s'
 
@@ -162,6 +171,10 @@ def pipesForSource (st : State) (s : Nat) : Bool × (Nat → Option Bool) :=
       let b := st.pipe == .live && (st.srcs s).listens
       (b, upd st.cache s (some b))
 
+/-- the first conjunct of `startWorker`'s condition, negated: no worker may be started — the service is closing
+(`closedCtx.Err() != nil`) or, if the code tests it, the pipe is deleted -/
+def noStart (cfg : Cfg) (st : State) : Bool := st.closed || (cfg.startChecksPipe && st.pipe == .deleted)
+
 def allIdle (st : State) : Bool := (List.range st.n).all (fun s => (st.srcs s).wk == .none)
 
 def step (cfg : Cfg) (st : State) : Label → Option State
@@ -186,7 +199,7 @@ def step (cfg : Cfg) (st : State) : Label → Option State
     | we :: rest =>
       let (hit, cache') := pipesForSource st we.src
       if hit then
-        some { st with chan := rest, cache := cache', srcs := upd st.srcs we.src (onWriteEvent st.closed (st.srcs we.src) we) }
+        some { st with chan := rest, cache := cache', srcs := upd st.srcs we.src (onWriteEvent (noStart cfg st) (st.srcs we.src) we) }
       else some { st with chan := rest, cache := cache' }
   | .wopen s =>
     -- `getState` + `GetOrCreate`: the cursor is positioned at the saved `Pos`
@@ -227,25 +240,30 @@ def step (cfg : Cfg) (st : State) : Label → Option State
     | .finishing, some d =>
       let d' := { d with charged := false }
       let σ' := { σ with wk := .none, desc := some d' }
-      some { st with srcs := upd st.srcs s (if cfg.rearm then startWorker st.closed σ' d' else σ') }
+      some { st with srcs := upd st.srcs s (if cfg.rearm then startWorker (noStart cfg st) σ' d' else σ') }
     | _, _ => none
   | .create =>
     -- `CreatePipe`: registers the ppipe; the positions file of a fresh name does not exist
     if st.down || st.pipe != .absent then none else
     some { st with pipe := .live, cache := if cfg.dropOnCreate then fun _ => none else st.cache,
+                   reg := if cfg.saveOnCreate then true else st.reg,
                    srcs := fun s => { st.srcs s with createdAt := (st.srcs s).log.length } }
   | .delete =>
     if st.down || st.pipe != .live then none else
-    some { st with pipe := .deleted, cache := if cfg.dropOnDelete then fun _ => none else st.cache }
+    some { st with pipe := .deleted, cache := if cfg.dropOnDelete then fun _ => none else st.cache,
+                   reg := if cfg.saveOnDelete then false else st.reg }
   | .shutdown =>
     if st.down || st.closed then none else some { st with closed := true }
   | .halt =>
     -- `Shutdown`: `wwg.Wait()` — every worker has run `workerDone`; queued and unpublished notifications are gone
-    if st.closed && !st.down && allIdle st then some { st with down := true, chan := [], pend := [] } else none
+    if st.closed && !st.down && allIdle st then
+      some { st with down := true, chan := [], pend := [], reg := if cfg.saveOnShutdown then st.pipe == .live else st.reg }
+    else none
   | .restart =>
-    -- `newPPipe` → `loadPipeInfo`
+    -- `Service.Init`: `loadPipes` (the registry file decides which pipes exist), `newPPipe` → `loadPipeInfo`
     if st.down then
       some { st with down := false, closed := false, cache := fun _ => none,
+                     pipe := if st.reg then .live else (match st.pipe with | .live => .absent | p => p),
                      srcs := fun s => { st.srcs s with
                        desc := (st.srcs s).saved.map (fun d => { d with charged := false, stale := decide (d.pos < d.lastKnown) }) } }
     else none
@@ -258,7 +276,7 @@ def run (cfg : Cfg) (st : State) : List Label → State
 
 def init (n : Nat) (listens : Nat → Bool) (prov : Nat → Bytes) (flt : Ev → Bool) (others : Bool) : State :=
   { n := n, srcs := fun s => { listens := listens s, prov := prov s }, dest := [], chan := [], pend := [],
-    pipe := .absent, cache := fun _ => none, others := others, flt := flt, closed := false, down := false }
+    pipe := .absent, cache := fun _ => none, others := others, flt := flt, closed := false, down := false, reg := false }
 
 /-- nothing in flight: no unpublished or queued notification, no worker -/
 def quiescent (st : State) : Bool := st.pend.isEmpty && st.chan.isEmpty && allIdle st
